@@ -67,6 +67,9 @@ def normalEqHolds (J : Mat) (d w : Vec) (alpha : Rat) (s p : Vec) (n : Nat) : Bo
 
 /-! ### Trend -/
 
+/-- Python's `sorted(l, key=key)` for natural-number keys: a stable sort (Lean's `List.mergeSort` is stable, like timsort). -/
+def sortedByKey {α : Type} (key : α → Nat) (l : List α) : List α := l.mergeSort (fun a b => decide (key a ≤ key b))
+
 /-- `polynomial_power_combinations(degree)`: all `(i, j)` with `i + j ≤ degree`, sorted by total degree (stable);
     inside one degree `t`: `(t,0), (t-1,1), …, (0,t)`. -/
 def powerCombinations (degree : Nat) : List (Nat × Nat) :=
